@@ -126,6 +126,17 @@ def run(chk):
                   'theorems C01_* no longer transfer', {'case': c, 'observed': {k: v for k, v in o['ok'].items() if k in ('init', 'apply', 'apply_vars_in')}})
   chk.cov['traces_validated_against_impl'] = len(coq)
   chk.notes['outcomes'] = stats
+  # dict-valued variables whose first value is an argument of init (F33)
+  dv = [{'depth': d, 'writes': w, 'child': ch, 'val': rng.randint(0, 5)} for d in (0, 1, 2) for w in (1, 2) for ch in (False, True)]
+  for c, o in zip(dv, common.run_impl('impl_c01.py', {'dict_valued': dv}, timeout=900)['dict_valued']):
+    chk.count({'dict_valued_variable': c}, True)
+    if 'err' in o:
+      chk.violation('oracle', 'a module with a dict-valued variable could not be initialised / applied: %s' % o['err'], {'case': c, 'tb': o.get('tb')})
+    elif not all(o['ok'].values()):
+      chk.violation('oracle', 'init / apply of a module whose variable holds a (nested) dict first taken from an argument: %s' % ', '.join(
+          {'arg_after_init': 'init changed its argument', 'init_repeatable': 'a second init on the same argument gives another output', 'init_value': 'init output is not the documented value',
+           'vars_after_apply': 'apply changed the variables or the argument it was given', 'apply_repeatable': 'a second apply on the same variables gives another output',
+           'apply_value': 'apply does not continue from the variables of init'}[k] for k, v in o['ok'].items() if not v), {'case': c, 'observed': o['ok']})
   chk.cov['rule'] = ('random compact module programs (depth <= %d: params, variables, put_variable, sow, perturb, make_rng, inline sub-modules with explicit/automatic names, instances '
                      'called again, classes instantiated twice; 8%% malformed names in every fifth program) x mutable in {False, True, name, list, DenyList(name/list), nested DenyList} x rng '
                      'stream sets x 1-3 repeated calls x dict/FrozenDict variables x a dropped collection; init then apply. non-trivial = the program writes a collection and '
